@@ -146,6 +146,24 @@ static void dump(void){ unsigned long n=atomic_load(&nev); if(n>MAXEV) n=MAXEV;
 static void *watchdog(void *a){ (void)a; long last=-1; int same=0; for(;;){ usleep(200000); long d=atomic_load(&items); if(d==last) same++; else same=0; last=d; if(same>=150){
    printf("STUCK after %ld items: a synchronous submission never returned\n",d); _dispatch_verif_atomic_cb=0; _dispatch_verif_load_cb=0; dump(); _exit(3);} } return 0; }
 static void on_crash(int sig){ char b[200]; int n=snprintf(b,sizeof b,"ORACLE VIOL seed=%llu the library trapped or crashed (signal %d) during contended synchronous submissions (a trap here is the library's own ownership / corruption check firing)\n",(unsigned long long)seed,sig); if(n>0) (void)!write(1,b,(size_t)n); _exit(1); }
+// ---- a barrier behind exactly one running reader (deterministic): the concurrent queue's list is empty and one unit of its width is in use
+// (one asynchronous item, or one dispatch_sync reader, is running) when dispatch_barrier_sync / dispatch_barrier_async_and_wait
+// arrives: the barrier item runs after the reader has finished and sees what it wrote; the call returns after the barrier item.
+void dispatch_barrier_async_and_wait(dispatch_queue_t, dispatch_block_t);
+struct rdr { dispatch_queue_t q; _Atomic int *started, *go; long *slot; };
+static void *sync_reader(void *a){ struct rdr *r=a; dispatch_sync(r->q,^{ atomic_store(r->started,1); for(int w=0; w<40000 && !atomic_load(r->go); w++) usleep(50); *r->slot=41; }); return 0; }
+static void one_reader_then_barrier(int rounds){ for(int r=0;r<rounds && !viol;r++) for(int kind=0;kind<4 && !viol;kind++){
+    dispatch_queue_t q=dispatch_queue_create("c05.one",DISPATCH_QUEUE_CONCURRENT); __block _Atomic int started=0, go=0; __block long slot=0; long *sp=&slot; _Atomic int *stp=&started, *gp=&go;
+    pthread_t th; int have_th=0; struct rdr ra={q,stp,gp,sp};
+    if(kind&1){ pthread_create(&th,0,sync_reader,&ra); have_th=1; }
+    else dispatch_async(q,^{ atomic_store(stp,1); for(int w=0; w<40000 && !atomic_load(gp); w++) usleep(50); *sp=41; });
+    for(int w=0; w<40000 && !atomic_load(&started); w++) usleep(50);
+    dispatch_after(dispatch_time(DISPATCH_TIME_NOW,3000000),dispatch_get_global_queue(0,0),^{ atomic_store(gp,1); });     // the reader finishes 3 ms later
+    __block long seen=-1; void (^bar)(void)=^{ seen=*sp; *sp=42; };
+    if(kind&2) dispatch_barrier_async_and_wait(q,bar); else dispatch_barrier_sync(q,bar);
+    if(seen!=41) fail("a barrier item submitted synchronously to a concurrent queue with one running reader and an empty list ran before that reader had finished (it did not see the reader's write): round / kind (bit 0: the reader is a dispatch_sync, bit 1: dispatch_barrier_async_and_wait) / value seen",r,kind,seen);
+    else if(slot!=42) fail("a synchronous barrier submission returned before its item had finished: round/kind",r,kind,0);
+    if(have_th) pthread_join(th,0); dispatch_barrier_sync(q,^{}); dispatch_release(q); atomic_fetch_add(&items,2); } }
 int main(int argc,char**argv){ signal(SIGILL,on_crash); signal(SIGSEGV,on_crash); signal(SIGABRT,on_crash); signal(SIGBUS,on_crash); seed=argc>1?strtoull(argv[1],0,0):1; int nthr=argc>2?atoi(argv[2]):6; nops=argc>3?atoi(argv[3]):2000;
   evs=calloc(MAXEV,sizeof(ev_t)); SQ=dispatch_queue_create("s",DISPATCH_QUEUE_SERIAL); CQ=dispatch_queue_create("c",DISPATCH_QUEUE_CONCURRENT);
   inject=1; _dispatch_verif_load_cb=cb; _dispatch_verif_atomic_cb=cb;
@@ -153,6 +171,7 @@ int main(int argc,char**argv){ signal(SIGILL,on_crash); signal(SIGSEGV,on_crash)
   pthread_t th[64]; for(int i=0;i<nthr;i++) pthread_create(&th[i],0,client2,0);
   for(int i=0;i<nthr;i++) pthread_join(th[i],0);
   dispatch_barrier_sync_f(CQ,0,nop); dispatch_sync_f(SQ,0,nop);
+  one_reader_then_barrier(3);
   edges(argc>4?atoi(argv[4]):40);
   _dispatch_verif_atomic_cb=0; _dispatch_verif_load_cb=0; inject=0;
   if(viol) printf("ORACLE VIOL seed=%llu %s\n",(unsigned long long)seed,vmsg);
